@@ -19,7 +19,7 @@ var symSourcePkgs = map[string]bool{
 	"encoding/asn1": true, "github.com/zmap/zcrypto/encoding/asn1": true,
 	"github.com/zmap/zcrypto/x509/pkix": true, "github.com/zmap/zcrypto/x509": true,
 	"github.com/zmap/zcrypto/util": true,
-	"net/netip": true, "math": true, "encoding/hex": true,
+	"net/netip":                    true, "math": true, "encoding/hex": true,
 }
 
 func (e *Exec) execFromSource(fn *ssa.Function) bool {
